@@ -1,6 +1,7 @@
 import Mltwist.Props.C16
 import Mltwist.Props.C32
 import Mltwist.Props.C03
+import Mltwist.Model.Compose
 /-
 COMPOSITION, part 6: the memory view (C32, `Model/MemView.lean`) over the LAYERED memories of the emulator state
 (C14 sparse, C15 bytes, C16 overlay, `Model/Overlay.lean`).
@@ -22,18 +23,7 @@ namespace Mltwist.Lemmas.Compose
 open Mltwist Mltwist.Overlay Mltwist.MemView Mltwist.Spec.Overlay Mltwist.Spec.Sparse
 open Mltwist.Lemmas.MemView Mltwist.Lemmas.Emulator
 
-/-- what the memory view reads from a stack of memories: `Blocks().Intervals()` and, per address, the bytes of the
-constant `ConstFold(Load(a, 1))` -/
-def ofMem (m : Overlay.Mem) : MemView.Mem where
-  blocks := match m.blocks with
-    | .ok l => some (l.map toRange)
-    | .error _ => none
-  load1 a := match m.load a 1 with
-    | .ok (some e) =>
-      match constFold e with
-      | .const bs => some bs
-      | _ => none
-    | _ => none
+-- `ofMem m` (what the memory view reads from a stack of memories): `Model/Compose.lean`
 
 /-- the bytes of the layered byte map (constants: evaluated under any valuation) -/
 def memBytes (m : Overlay.Mem) : Nat → Option UInt8 := fun a =>
